@@ -1,5 +1,5 @@
 import ast
-from typing import Dict, List, Optional, Set, Tuple, Union, cast
+from typing import Dict, Iterable, List, Optional, Set, Tuple, Union, cast
 
 from graphql import (
     GraphQLEnumType,
@@ -59,13 +59,19 @@ class ArgumentsGenerator:
         self._used_custom_scalars: List[str] = []
 
     def generate(
-        self, variable_definitions: Tuple[VariableDefinitionNode, ...]
+        self,
+        variable_definitions: Tuple[VariableDefinitionNode, ...],
+        reserved_names: Optional[Iterable[str]] = None,
     ) -> Tuple[ast.arguments, ast.Dict]:
-        """Generate arguments from given variable definitions."""
+        """Generate arguments from given variable definitions.
+
+        reserved_names: further names the method body refers to (its result class).
+        """
         required_args: List[ast.arg] = [generate_arg("self")]
         optional_args: List[ast.arg] = []
         dict_ = generate_dict()
         used_names = self._get_reserved_argument_names()
+        used_names.update(reserved_names or ())
         for variable_definition in variable_definitions:
             org_name = variable_definition.variable.name.value
             name = process_name(
